@@ -1,14 +1,15 @@
 // C10 harness: closing a server is clean and safe under concurrent traffic.
 //
 // Three families of cases (see Corr/C10.v):
-//   script  one network.Router on TCP or the in-memory transport, harness-owned peers,
-//           one interleaving of Router.Stop with sends / inbound connections / deliveries
-//           forced through the verif schedule points; the same script is run by the Coq
-//           transition system and the observables are compared
-//   race    the same operations started together without any hold
-//   server  full onet servers (LocalTest on both transports) with running protocol
-//           instances and messages in flight; Server.Close called 1-3 times, racing with
-//           sends, protocol starts and the tree store's removal timer
+//
+//	script  one network.Router on TCP or the in-memory transport, harness-owned peers,
+//	        one interleaving of Router.Stop with sends / inbound connections / deliveries
+//	        forced through the verif schedule points; the same script is run by the Coq
+//	        transition system and the observables are compared
+//	race    the same operations started together without any hold
+//	server  full onet servers (LocalTest on both transports) with running protocol
+//	        instances and messages in flight; Server.Close called 1-3 times, racing with
+//	        sends, protocol starts and the tree store's removal timer
 package main
 
 import (
@@ -35,28 +36,30 @@ type input struct {
 	Srv    *srv   `json:"server,omitempty"`
 }
 
-// scriptClass derives the class from the script alone (never from the outcome).
+// scriptClass derives the class from the script alone (never from the outcome): it
+// follows which peers have an established connection, exactly as the generator does.
 func scriptClass(in input) string {
 	tags := map[string]bool{}
 	closedSet := false
 	heldSend := map[int]bool{}
-	heldIn := map[int]bool{}
-	silent := map[int]bool{}
-	nsend, nconn := 0, 0
-	known := map[int]bool{} // peers we have an established connection with (approximation for the tag only)
+	nsend := 0
+	var connPeer []int           // peer of every connection, in creation order
+	established := map[int]int{} // peer -> connection index
 	for _, m := range in.Script {
 		switch m.Op {
 		case "send", "sendhold":
-			if closedSet {
-				tags["sendafter"] = true
-			} else if m.Op == "sendhold" && !known[m.A] {
-				heldSend[nsend] = true
-			}
-			if !closedSet {
-				known[m.A] = true
+			_, have := established[m.A]
+			if !have {
+				if closedSet {
+					tags["sendafter"] = true
+				} else if m.Op == "sendhold" {
+					heldSend[nsend] = true
+				} else {
+					established[m.A] = len(connPeer)
+				}
+				connPeer = append(connPeer, m.A)
 			}
 			nsend++
-			nconn++
 		case "senddead":
 			nsend++
 		case "sendrelease":
@@ -65,20 +68,34 @@ func scriptClass(in input) string {
 			}
 			delete(heldSend, m.A)
 		case "incoming":
-			nconn++
+			if !closedSet {
+				if _, have := established[m.A]; !have {
+					established[m.A] = len(connPeer)
+				}
+				connPeer = append(connPeer, m.A)
+			}
 		case "incominghold":
-			heldIn[m.A] = true
-			nconn++
+			if !closedSet {
+				connPeer = append(connPeer, m.A)
+			}
 		case "incomingsilent":
-			silent[m.A] = true
-			tags["silent"] = true
-			nconn++
+			if !closedSet {
+				tags["silent"] = true
+				connPeer = append(connPeer, m.A)
+			}
 		case "incomingrelease":
 			if closedSet {
 				tags["f11in"] = true
 			}
+		case "peerclose":
+			for p, c := range established {
+				if c == m.A {
+					delete(established, p)
+				}
+			}
 		case "stop", "stophold":
 			closedSet = true
+			established = map[int]int{}
 		}
 	}
 	var ts []string
